@@ -151,6 +151,12 @@ Theorem C20_char_to_colour_and_back : forall m ch,
   exists v, char_to_color m ch = Ok v /\ color_to_char m v = Ok ch /\ ch <> SPACE /\ In v (colset m).
 Proof. exact charset_roundtrip. Qed.
 
+(* no lossy character: whatever char_to_color accepts prints back as itself (lower-case hex digits as upper case) *)
+Theorem C20_accepted_chars_roundtrip : forall m ch v,
+  In m all_mappings -> char_to_color m ch = Ok v ->
+  color_to_char m v = Ok (ascii_upper ch) /\ In (ascii_upper ch) (charset m).
+Proof. exact accepted_chars_roundtrip. Qed.
+
 Theorem C20_character_sets :
   m_col2c map_BinaryColor = [(0, 46); (1, 35)] /\
   m_col2c map_Gray2 = zip (range 0 4) (firstn 4 HEX_UPPER) /\
